@@ -8,16 +8,20 @@
     exactly one solution, by induction along ANY valid order.  They hold for every
     probability space, in particular for binary64 floats, where "the same" means bit for bit.
 
-    NOT proved: (a) that re-ordering the edges INSIDE a group (which renumbering the children
-    does, since tskit sorts a parent's edges by child id) leaves the product unchanged -- true
-    over the reals by commutativity, only up to rounding in floats; (b) that a bijection on
-    node ids commutes with the whole pipeline including prior construction and the
-    constraint pass ([C11_relabel] of DESIGN.md); (c) the statement for [outside_maximization]
-    up to ties.  These are covered by the metamorphic oracle of tools/props/c11.py
-    (renumbering and valid re-timing through the public API), hence [_partial]. *)
-From Coq Require Import List Arith.
+    Over the reals the order of the edges INSIDE a parent group does not matter either
+    ([C11_inside_group_order_independent]; renumbering the children permutes a parent's edges,
+    since tskit sorts them by child id); in floats this holds only up to rounding, which is
+    why the property says "up to floating-point tolerance".
+
+    NOT proved: (a) that a bijection on node ids commutes with the whole pipeline including
+    prior construction and the constraint pass ([C11_relabel] of DESIGN.md); (b) the statement
+    for the outside pass under re-ordering inside a child's group, and for
+    [outside_maximization] up to ties.  These are covered by the metamorphic oracle of
+    tools/props/c11.py (renumbering and valid re-timing through the public API), hence
+    [_partial]. *)
+From Coq Require Import List Arith Reals Permutation.
 From TsdateV Require Import lib.Num model.Discrete proofs.DiscreteBase proofs.DiscreteInside
-  proofs.DiscreteOutside proofs.DiscreteEx.
+  proofs.DiscreteInsidePerm proofs.DiscreteOutside proofs.DiscreteEx.
 Import ListNotations.
 
 (** after the inside pass over any sequence of parent groups in a valid order (distinct
@@ -44,6 +48,19 @@ Theorem C11_inside_order_independent_partial :
     i_ins P st1 (fst g) = i_ins P st2 (fst g) /\ i_den P st1 (fst g) = i_den P st2 (fst g).
 Proof. exact inside_order_independent. Qed.
 Print Assumptions C11_inside_order_independent_partial.
+
+(** linear space over the reals: the groups may in addition list their edges in a different order *)
+Theorem C11_inside_group_order_independent :
+  forall (G : nat) (lik : nat -> nat -> nat -> R) (sfrac : nat -> R) fixed (prior : nat -> list R) std
+         gs1 gs2 st1 st2 s1 s2,
+  inside_order fixed [] gs1 -> inside_order fixed [] gs2 ->
+  (forall g, In g gs1 -> exists es', Permutation (snd g) es' /\ In (fst g, es') gs2) ->
+  inside_groups LinR G lik sfrac fixed prior std s1 gs1 = Some st1 ->
+  inside_groups LinR G lik sfrac fixed prior std s2 gs2 = Some st2 ->
+  forall g, In g gs1 -> fixed (fst g) = false ->
+    i_ins LinR st1 (fst g) = i_ins LinR st2 (fst g) /\ i_den LinR st1 (fst g) = i_den LinR st2 (fst g).
+Proof. exact inside_group_order_independent. Qed.
+Print Assumptions C11_inside_group_order_independent.
 
 (** two valid orders (parents first) of the same child groups, started from outside maps that
     agree (the roots' initial values), give the same outside values; [st] is the state left by
